@@ -69,6 +69,8 @@ type Ctx struct {
 	notes      []string
 	deadline   time.Time
 	capped     bool
+	caseFile   *os.File
+	outfile    string
 }
 
 func (c *Ctx) Thorough() bool { return c.Tier == "thorough" }
@@ -92,10 +94,26 @@ func (c *Ctx) Take() bool {
 		return false
 	}
 	atomic.AddInt64(&c.progress, 1)
+	if c.caseFile != nil {
+		var b [8]byte
+		binary.LittleEndian.PutUint64(b[:], uint64(i))
+		c.caseFile.WriteAt(b[:], 0)
+	}
 	if c.Trace {
 		fmt.Fprintf(os.Stderr, "TRACE case=%d\n", i)
 	}
 	return true
+}
+
+// TraceInput records a description of the input about to be tried (trace mode only: the supervisor re-runs a crashed
+// shard in trace mode and reads the last description to pin the exact input that killed the process).
+func (c *Ctx) TraceInput(desc func() string) {
+	if !c.Trace && c.Only < 0 {
+		return
+	}
+	if p := os.Getenv("VERIF_TRACE_FILE"); p != "" {
+		os.WriteFile(p, []byte(desc()), 0o644)
+	}
 }
 
 // Index is the index of the case most recently offered by Take.
@@ -177,6 +195,9 @@ func RunWorker(chk *Check, tier string, seed int64, shard, nshards int, outfile 
 	if budget > 0 {
 		c.deadline = time.Now().Add(budget)
 	}
+	if p := os.Getenv("VERIF_CASE_FILE"); p != "" && only < 0 {
+		c.caseFile, _ = os.Create(p)
+	}
 	if exe, err := os.Executable(); err == nil {
 		base := exe[strings.LastIndex(exe, "/")+1:]
 		c.Variant = strings.TrimPrefix(base, "vcheck")
@@ -194,9 +215,22 @@ func RunWorker(chk *Check, tier string, seed int64, shard, nshards int, outfile 
 			}
 		}
 	}()
+	c.outfile = outfile
 	chk.Run(c)
 	close(stop)
-	out := workerOut{Counters: c.Counters, Samples: c.samples, Notes: c.notes, Capped: c.capped, Cases: c.idx, Done: true,
+	c.writeOut(outfile, true)
+}
+
+// Checkpoint saves everything found so far; the supervisor merges it if the process dies in a later case (checks call
+// it before inputs that are known to be able to kill the process).
+func (c *Ctx) Checkpoint() {
+	if c.outfile != "" && c.Only < 0 {
+		c.writeOut(c.outfile+".ckpt", false)
+	}
+}
+
+func (c *Ctx) writeOut(outfile string, done bool) {
+	out := workerOut{Counters: c.Counters, Samples: c.samples, Notes: c.notes, Capped: c.capped, Cases: c.idx, Done: done,
 		DistinctN: map[string]int64{}}
 	for _, v := range c.viol {
 		out.Violations = append(out.Violations, v)
